@@ -65,6 +65,19 @@ class RecKernel:
     def wait(self, qubits, duration):
         self.ops.append(('wait', tuple(qubits), duration))
 
+    # OpenQL convenience methods that mean the same as a named gate
+    def measure(self, q):
+        self.ops.append(('gate', 'measure', (q,)))
+
+    def prepz(self, q):
+        self.ops.append(('gate', 'prepz', (q,)))
+
+    def hadamard(self, q):
+        self.ops.append(('gate', 'h', (q,)))
+
+    def identity(self, q):
+        self.ops.append(('gate', 'i', (q,)))
+
     def __getattr__(self, item):
         # any other kernel call the exporter might make is recorded verbatim (and will not match the reference)
         def rec(*a, **k):
